@@ -159,6 +159,7 @@ extern bool g_in_op;             // a library call issued by an op is in flight 
 void op_begin(int task, int opid, int kind, const char* fn);
 void op_end();
 void set_task_stack(TaskCtx* t);
+void cache_main_stack();
 void run_reset_child();          // called first thing in a freshly forked child
 
 // locale configurations
